@@ -268,8 +268,11 @@ def ref_padded_face(table, N, arrays, comp, f, widths, rules, fvs, isvec):
 
 
 def respell_flags(table, mode):
-    """the reverse flag of every link spelled as bool (0), numpy.bool_ (1) or int 0/1 (2): same table"""
+    """the reverse flag of every link spelled as bool (0), numpy.bool_ (1) or int 0/1 (2); mode 3: links and pairs as
+    lists instead of tuples (a table after a JSON round trip): same table"""
     import numpy as np
 
-    conv = {0: bool, 1: np.bool_, 2: int}[mode % 3]
+    if mode % 4 == 3:
+        return {f: {A: [None if l is None else [l[0], l[1], bool(l[2])] for l in pair] for A, pair in ax.items()} for f, ax in table.items()}
+    conv = {0: bool, 1: np.bool_, 2: int}[mode % 4]
     return {f: {A: tuple(None if l is None else (l[0], l[1], conv(l[2])) for l in pair) for A, pair in ax.items()} for f, ax in table.items()}
